@@ -95,7 +95,7 @@ pub fn build_world(seed: u64, long: bool) -> Result<World, String> {
 	cfg.max_txs = 2;
 	cfg.reorg_pct = 60;
 	if long {
-		cfg.trunk = r.range(87, 92);
+		cfg.trunk = r.range(90, 93);
 		cfg.branches = 1;
 		cfg.max_branch_depth = r.range(2, 4);
 		cfg.fork_near_tip = 4;
@@ -155,7 +155,7 @@ pub fn draw_plan(world: &World, rng: &mut SimRng) -> Plan {
 		readers: rng.range(1, 2) as usize,
 		reader_iters: rng.range(3, 8) as usize,
 		builder_thread: rng.chance(1, 2),
-		segment_thread: rng.chance(1, 2),
+		segment_thread: rng.chance(1, 2) || long,
 		compactor_thread: long || rng.chance(1, 3),
 		stay_pct: *rng.pick(&[30u64, 60, 85]),
 		late: {
@@ -437,16 +437,23 @@ fn run_in_child(world: &World, plan: &Plan, probes: &Probes, seed: u64, replay: 
 		}));
 	}
 	if plan.segment_thread {
-		let chain = chain.clone();
-		handles.push(sched::spawn("segments", move || {
-			global::set_local_chain_type(global::ChainTypes::AutomatedTesting);
-			for _ in 0..2 {
-				if let Ok(s) = chain.segmenter() {
-					let _ = s.kernel_segment(SegmentIdentifier { height: 2, idx: 0 });
-					let _ = s.output_segment(SegmentIdentifier { height: 2, idx: 0 });
+		// two peers' handler threads serving segments. The segmenter is cached per archive period: the
+		// cache is filled before the threads start, and in the long worlds the head crosses into the
+		// next period (height 90: archive header 60 -> 70) while they run, so that one of them rebuilds
+		// the segmenter (under the chain's write locks) while the other looks at the stale cache.
+		let _ = chain.segmenter();
+		for name in ["segments", "segments2"] {
+			let chain = chain.clone();
+			handles.push(sched::spawn(name, move || {
+				global::set_local_chain_type(global::ChainTypes::AutomatedTesting);
+				for _ in 0..4 {
+					if let Ok(s) = chain.segmenter() {
+						let _ = s.kernel_segment(SegmentIdentifier { height: 2, idx: 0 });
+						let _ = s.output_segment(SegmentIdentifier { height: 2, idx: 0 });
+					}
 				}
-			}
-		}));
+			}));
+		}
 	}
 	if plan.compactor_thread {
 		let chain = chain.clone();
